@@ -87,6 +87,7 @@ class Repo:
         if not os.environ.get("SA_NO_ALPHA"):
             from .alpha import load_reference, undo_pure_renames
             ref = load_reference()
+            self._undo_function_renames(ref)
             for m in self.modules.values():
                 self._undo_renames(m, ref, undo_pure_renames)
         for m in self.modules.values():
@@ -97,6 +98,56 @@ class Repo:
                 c.bases = [m.classes[b].qual if b in m.classes else b for b in c.bases]
         self.n_calls = 0
         self.n_resolved = 0
+
+    def _undo_function_renames(self, ref):
+        """E-ALPHA for function names: a module-level function or a method that is missing from the tree under its reference name, while an
+        unknown function with the same alpha-normal body sits in the same module/class, has been renamed.  The old name is restored on the
+        definition and on every reference in the package (names, attributes, from-imports).  Only ever used to undo a renaming."""
+        from .alpha import describe
+        for _round in range(6):          # a renamed helper that calls another renamed helper matches only once the callee's name is restored
+            cur = {}
+            for m in self.modules.values():
+                def rec(body, prefix):
+                    for st in body:
+                        if isinstance(st, (ast.FunctionDef, ast.AsyncFunctionDef)):
+                            cur[f"{prefix}.{st.name}"] = st
+                        elif isinstance(st, ast.ClassDef):
+                            rec(st.body, f"{prefix}.{st.name}")
+                        elif isinstance(st, (ast.If, ast.Try, ast.With)):
+                            for fld in ("body", "orelse", "finalbody"):
+                                rec(getattr(st, fld, []) or [], prefix)
+                rec(m.tree.body, m.name)
+            missing = [q for q in ref if q not in cur]
+            extra = [q for q in cur if q not in ref]
+            if not missing or not extra:
+                return
+            known = {q.rpartition(".")[2] for q in ref}
+            renames = {}
+            for q in extra:
+                scope, _, newname = q.rpartition(".")
+                if newname.startswith("__") or newname in known:
+                    continue
+                try:
+                    h, _ = describe(cur[q])
+                except Exception:
+                    continue
+                cands = [mq for mq in missing if mq.rpartition(".")[0] == scope and ref[mq]["hash"] == h]
+                if len(cands) == 1 and newname not in renames:
+                    renames[newname] = cands[0].rpartition(".")[2]
+                    cur[q].name = renames[newname]
+                    self.renames_undone.append(f"{q} -> {cands[0]}")
+            if not renames:
+                return
+            for m in self.modules.values():
+                for n in ast.walk(m.tree):
+                    if isinstance(n, ast.Name) and n.id in renames:
+                        n.id = renames[n.id]
+                    elif isinstance(n, ast.Attribute) and n.attr in renames:
+                        n.attr = renames[n.attr]
+                    elif isinstance(n, ast.ImportFrom):
+                        for a in n.names:
+                            if a.name in renames:
+                                a.name = renames[a.name]
 
     def _undo_renames(self, m: Module, ref, undo):
         def rec(body, prefix):
